@@ -4,7 +4,7 @@
 From Coq Require Import ZArith List Bool.
 From V Require Import base.Cal gen.RrTables rr.RRBase rr.RRNorm rr.RRMasks rr.RRIter rr.RRSpec
   rr.RRTablesThm rr.RRIterThm rr.RRRefuted rr.RRWeekDefs rr.RRWeekThm rr.RRWeekFinal rr.RRWeekCal
-  rr.RRWeekTop rr.RROverlay rr.RREasterThm rr.RRNwdThm rr.RRAdvanceThm rr.RRNwdCal rr.RRDaysetThm rr.RRSubdailyThm rr.RRFilterThm rr.RRFilterSpec rr.RRPassThm rr.RRGateThm rr.RRTimesetThm rr.RRYearlyThm rr.RRYearlyEasterThm rr.RRCountThm rr.RRYearlyCountThm rr.RRYearlyUntilThm.
+  rr.RRWeekTop rr.RROverlay rr.RREasterThm rr.RRNwdThm rr.RRAdvanceThm rr.RRNwdCal rr.RRDaysetThm rr.RRSubdailyThm rr.RRFilterThm rr.RRFilterSpec rr.RRPassThm rr.RRGateThm rr.RRTimesetThm rr.RRYearlyThm rr.RRYearlyEasterThm rr.RRCountThm rr.RRYearlyCountThm rr.RRYearlyUntilThm rr.RRYearlyMaxThm.
 Import ListNotations.
 Open Scope Z_scope.
 
@@ -549,3 +549,11 @@ Theorem C01_rrule_iter_correct_yearly_partial : forall r rl limit n,
   fst (iterate rl limit n) = fst (spec_iter r limit n).
 Proof. exact yearly_iter_correct_u. Qed.
 Print Assumptions C01_rrule_iter_correct_yearly_partial.
+
+(* the same for EVERY number of passes (no bound: when the next year would pass 9999 the code returns
+   by the MAXYEAR test, the specification at the next step's range test), rules without BYEASTER *)
+Theorem C01_rrule_iter_correct_yearly_all_fuel_partial : forall r rl limit n,
+  normalize r = Ok rl -> yfam_u r -> r_byeaster r = None -> 2 <= r_y r ->
+  fst (iterate rl limit n) = fst (spec_iter r limit n).
+Proof. exact yearly_iter_correct_all. Qed.
+Print Assumptions C01_rrule_iter_correct_yearly_all_fuel_partial.
